@@ -8,6 +8,11 @@ NOT_APPLICABLE = {
            'within reach (DESIGN.md 2/C13)',
 }
 
+_T_LLSX = ('symbolic execution of the LLVM IR that clang-14 produces from the current _fjcore.c (llsx interpreter over z3 bit-vectors, '
+           'one loop iteration from a havocked loop-header state), z3 unsat verdict per path, counterexamples replayed on a fresh native build')
+_T_FJSX = ('the real assembler builds the current stl into an image; a symbolic FlipJump machine (fjsx, z3 bit-vectors, fork/join on '
+           'symbolic jump words) executes the macro on symbolic operand values; z3 unsat verdict per final state; counterexamples '
+           'replayed on the real interpreter')
 _T_PYSYM = ('symbolic execution of the real Python bytecode on z3 bit-vector proxies (pysym), z3 unsat verdict per path, '
             'counterexamples replayed on the real code')
 
@@ -86,4 +91,89 @@ CLAIMED = {
              'bit, hex or byte vector decoded at dbit with stride 2w, and memory is unchanged.',
         note='K=1 from ip 0 and K=2 with the C01 trampoline; label pretty-printing stubbed; terminal IO scripted.',
         technique=_T_PYSYM + '; product-program comparison', ref='DESIGN.md 2/C15'),
+    'C03': dict(
+        text='Bounded symbolic verification: four macro-program shapes (nesting depth 2 and 3 with rep inside rep, namespaces with '
+             'relative names and arity overloading, an extern label and swapped parameters) are written with EVERY assignment of a 4-5 '
+             'name pool to their parameters, local labels, rep iterators and global labels that the language allows; each text and '
+             'its binding-level inlining (locals renamed apart, reps unrolled) run through the real assembler with all numbers shared '
+             'symbolic constants and symbolic rep counts (0 included); the two images are proved equal word by word, and equal '
+             'again when the source is split over two files at a top-level statement.',
+        note='Identifier spellings and shapes are enumerated (a lexer/LALR parser cannot be driven by symbolic strings); the solver '
+             'decides word equality for all constants and rep counts. Trusted: the 40-line binding-level inliner. Quick strides the two '
+             'largest shapes (every 8th / 4th spelling), thorough is exhaustive over the pool.',
+        technique=_T_PYSYM + '; two-program equivalence (macro text vs inlined text)', ref='DESIGN.md 2/C03'),
+    'C04': dict(
+        text='Bounded symbolic verification of 36 hex-namespace macros (logic, shifts, add/sub/inc/dec/neg, constants, comparisons, '
+             'conditional jumps, min/max, mov/swap/zero): for every value of every operand (n <= 2-4 hex digits) the final variables, the '
+             'exit taken and the frame are proved equal to the documented function, and the same call site executed a second time from '
+             'the state the first run left (shared tables, carry flags) with fresh operands is proved correct again.',
+        note='mul/div families and n above the bound are outside; w=64 (32 in thorough).',
+        technique=_T_FJSX, ref='DESIGN.md 2/C04'),
+    'C05': dict(
+        text='Bounded symbolic verification of 26 bit-namespace macros (logic, shifts/rotates, inc/dec/neg/add/sub, comparisons, conditional '
+             'jumps, mov/swap/zero/one) at w in {16, 64} (+32 in thorough), n <= 4 (8), with the re-entry check of C04.',
+        note='bit.mul/div families outside.', technique=_T_FJSX, ref='DESIGN.md 2/C05'),
+    'C07': dict(
+        text='Bounded symbolic verification, native engine: one op of every C run-loop clone (run_flat_loop, run_generic_loop with and '
+             'without the last-ops ring, run_measured_loop) in every storage mode (flat, hybrid with a symbolic flat window, paged with '
+             'the page-cache contract model) is proved equal to the same reference step pyspec that C01 proves the Python engines equal '
+             'to - so all engines and storage modes agree op by op on outputs, reads, cause, fault address, op count, last-ops ring and '
+             'memory.',
+        note='Unaligned ops at w=64 in hybrid/paged storage: solver does not finish (outside). The page table/cache is modelled by its '
+             'contract (mem_get_page stub) with the real page_compute_validity / page_cache_fill IR.',
+        technique=_T_LLSX, ref='DESIGN.md 2/C07'),
+    'C08': dict(
+        text='Bounded symbolic verification of 28 pointer macros (read/write/xor hex and byte through a pointer, *_and_inc, vector forms, '
+             'ptr_flip_dbit, ptr_wflip_2nd_word, nth read/write with negative indices, ptr_jump, pointer arithmetic on arbitrary pointer values) '
+             'over a 3-cell buffer with symbolic contents - for every target cell and, through the re-entry check, every ordered pair of target '
+             'cells - and of 9 stack / call sequences (LIFO of hexes, bytes and vectors with sp restored, call over a used cell, call with '
+             'parameters, call/return nested three deep with data pushes, nested fcall/fret) each executed twice.',
+        note='The pointer is concrete per case (3 cells x 3 cells), every stored value symbolic. A run that leaves the documented control flow '
+             '(jump into garbage) is replayed concretely on the real interpreter. bit-namespace pointers outside.',
+        technique=_T_FJSX, ref='DESIGN.md 2/C08'),
+    'C09': dict(
+        text='Bounded symbolic verification of 37 IO macros: raw bit/byte output and input, ASCII hex digits in and out, casts, unsigned and '
+             'signed hex numerals without leading zeros (prefix, case), unsigned and signed DECIMAL printing (every value of 3-12 bits / 1-3 '
+             'hex digits; one alternative per digit count), decimal input with sign, stop byte and error branch over every input of k <= 3 '
+             '(4) bytes. Output bits are proved equal to the documented byte string, input results to the documented parse.',
+        note='hex/strings.fj helpers and bit.print_str outside. Three documentation defects found and fixed (bit.print_as_digit, bit.input n).',
+        technique=_T_FJSX + '; the IO op is part of the symbolic machine (symbolic input bits, recorded output bits)', ref='DESIGN.md 2/C09'),
+    'C11': dict(
+        text='Bounded symbolic verification, native engine: the one-op harness of C01/C07 with every allocation allowed to fail (malloc/calloc/'
+             'realloc return NULL, page allocation fails): every memory access of the IR stays inside a live object (bounds, use after free, '
+             'double free are violations of the interpreter itself), reference counts balance, and a failed allocation ends the run with '
+             'MemoryError and no effect of the unfinished op.',
+        note='Heap objects are modelled per allocation; the flat array and pages are symbolic-length objects. Only the run loops and the '
+             'accessors they call are encoded (Memory construction / add_segment outside).',
+        technique=_T_LLSX, ref='DESIGN.md 2/C11'),
+    'C16': dict(
+        text='Bounded symbolic verification: (a) the label table of the C02 programs (real pipeline, symbolic layout operands): every '
+             'label equals the address of the statement it precedes and pins that address into the image; (b) the real get_breakpoints / '
+             'get_breakpoint_handler on a label table with symbolic addresses (possibly equal, possibly 0): the breakpoint addresses are '
+             'exactly the addresses of the exactly-named / substring-matching labels plus the given addresses; macro-local label names of '
+             'distinct expansions are distinct in the C03 programs.',
+        note='The save/load round trip (lzma + json, C-level) is validated on concrete tables, not solver-decided.',
+        technique=_T_PYSYM, ref='DESIGN.md 2/C16'),
+    'C18': dict(
+        text='Bounded symbolic verification: an IO device that fails at its k-th call (k symbolic; library IO error, end-of-input type, foreign '
+             'exception, KeyboardInterrupt) under the real fjm_run.run() of both Python loops, and the native loops with PyErr_CheckSignals / '
+             'device callbacks failing at arbitrary points: outcome class, op count, outputs so far, last-ops list and memory at the stop equal '
+             'pyspec stopped by the same fault.',
+        note='Native: signals are polled every 2^k ops (havocked counter).', technique=_T_PYSYM + '; ' + _T_LLSX, ref='DESIGN.md 2/C18'),
+    'C19': dict(
+        text='Bounded symbolic verification: (a) the real ReaderDeviceMemory over the symbolic machine state of C01: device read / in-segment '
+             'device write, one op of the real Python loop, device read - everything the device and the op see equals pyspec over the reference '
+             'device semantics; packed-byte helpers; (b) native Memory_get_word / Memory_set_word in flat, hybrid (symbolic flat window, stale page '
+             'copies below it) and paged storage against the program\'s own accessor mem_read_word; (c) the real InMemoryScreen on every command '
+             'stream of the listed shapes with symbolic bytes: palette, pixels, presented frames equal the documented layout; malformed streams '
+             'end in IODeviceException.',
+        note='One device write per scenario; screens up to 2x2. Whole-program frame equality follows per op from (a)+(b)+C01/C07 and is not run '
+             'end-to-end.', technique=_T_PYSYM + '; ' + _T_LLSX, ref='DESIGN.md 2/C19'),
+    'C20': dict(
+        text='Bounded symbolic verification of the real option plumbing (flipjump_cli get_version / assemble / run / get_files_paths / '
+             'execute_assemble_run and flipjump_quickstart assemble / run / debug / assemble_and_run / assemble_and_debug) with symbolic option '
+             'values and the two cores (assembler.assemble, fjm_run.run) replaced by recorders: the recorded core calls of the one-step CLI flow, '
+             'the two-step CLI flow and the API are proved argument-for-argument identical, and the defaults equal the documented ones.',
+        note='Byte identity of the produced files then rests on the core being a function of those arguments (C13, not claimed).',
+        technique=_T_PYSYM, ref='DESIGN.md 2/C20'),
 }
